@@ -54,6 +54,7 @@ func RunEngine(e Engine, seed int64, n int, tier string, out string, shard int, 
 		return err
 	}
 	r := rand.New(rand.NewSource(seed))
+	emit.StartInterning()
 	var recs []CaseRec
 	var coq []string
 	add := func(in any) error {
@@ -99,6 +100,7 @@ func RunEngine(e Engine, seed int64, n int, tier string, out string, shard int, 
 		}
 		var b strings.Builder
 		fmt.Fprintf(&b, "From RV Require Import %s.\n", e.CoqModule())
+		b.WriteString(emit.Table())
 		fmt.Fprintf(&b, "Definition cases : list case := [\n%s\n].\n", strings.Join(coq[lo:hi], ";\n"))
 		fmt.Fprintf(&b, "Definition R := Eval vm_compute in run_cases judge cases.\nPrint R.\n")
 		fmt.Fprintf(&b, "Definition H := Eval vm_compute in histogram (map tag cases).\nPrint H.\n")
